@@ -55,6 +55,8 @@ def main():
                 print(pid, res["exit"], res["lines"][:2], res["tail"][-1][:200], flush=True)
         # keep the first replay of the seeded property's own check
         for pid, res in results.items():
+            if pid != meta["property"]:
+                continue
             for l in res["lines"]:
                 if l.startswith("VIOLATION") and "replay=" in l:
                     rp = l.split("replay=")[1].split()[0]
@@ -64,6 +66,8 @@ def main():
     finally:
         sh(["git", "-C", REPO, "apply", "-R", patch])
         sh(["git", "-C", REPO, "checkout", "--", "."])
+        # the regenerated tables must follow the restored tree
+        sh([os.path.join(VERIF, "build", "harness-target", "debug", "extract"), "--repo", REPO, "--out", os.path.join(VERIF, "lean", "Solstat", "Gen")])
         left = sh(["git", "-C", REPO, "status", "--porcelain"]).stdout.strip()
         if left:
             print("WARNING: /repo not clean after undo:\n" + left)
